@@ -157,6 +157,11 @@ impl Lexicon {
                         }
                         _ => {
                             features_len += nin;
+                            // The input ended right after a delimiter. The last cell is empty
+                            // and has no record terminator to be excluded later.
+                            if record_end && nin == 0 {
+                                features_len += 1;
+                            }
                         }
                     }
                     record_end_pos += nin;
